@@ -11,14 +11,27 @@ def create_build_finer_grid_fun(epsilon: float, maturity: float):
     ):
         return jump_times, fines_states_values, coarse_states_values
 
+    def _last_value(values):
+        if values.shape[-1]:
+            return values[..., -1:]
+        return np.zeros(values.shape[:-1] + (1,))
+
     def _build_finer_grid(self, jump_times, fines_states_values, coarse_states_values):
-        dts = np.concatenate(([jump_times[0]], np.diff(jump_times)))
+        # the maturity is added (and removed at the end) so that the last step, up to the maturity, is capped like the
+        # others and a path without any jump is refined too
+        fines_states_values = np.asarray(fines_states_values)
+        coarse_states_values = np.asarray(coarse_states_values)
+        dts = np.diff(np.append(jump_times, maturity), prepend=0)
         if not any(dts > epsilon):
             return jump_times, fines_states_values, coarse_states_values
         else:
             positions = np.nonzero(dts > epsilon)[0]
-            aug_fine_js = fines_states_values
-            aug_coarse_js = coarse_states_values
+            aug_fine_js = np.concatenate(
+                (fines_states_values, _last_value(fines_states_values)), axis=-1
+            )
+            aug_coarse_js = np.concatenate(
+                (coarse_states_values, _last_value(coarse_states_values)), axis=-1
+            )
             aug_dts = dts
             while positions.size > 0:
                 aug_dts[positions] -= epsilon
@@ -38,6 +51,6 @@ def create_build_finer_grid_fun(epsilon: float, maturity: float):
                 positions = np.nonzero(aug_dts > epsilon)[0]
             aug_jump_times = np.cumsum(aug_dts)
 
-            return aug_jump_times, aug_fine_js, aug_coarse_js
+            return aug_jump_times[:-1], aug_fine_js[..., :-1], aug_coarse_js[..., :-1]
 
     return _build_finer_grid_default if epsilon >= maturity else _build_finer_grid
